@@ -279,9 +279,9 @@ func TestC13(t *testing.T) {
 	if !requireHooks(t) {
 		return
 	}
-	ev.Check(t, "c13_char", ev.N(8000, 240000), c13Gen, c13Run)
-	ev.Check(t, "c13_bands", ev.N(2400, 60000), c13BandGen, c13Run)
-	ev.Check(t, "c13_wl", ev.N(1600, 20000), func(t *rapid.T) c13WL {
+	ev.Check(t, "c13_char", ev.N(48000, 600000), c13Gen, c13Run)
+	ev.Check(t, "c13_bands", ev.N(16000, 200000), c13BandGen, c13Run)
+	ev.Check(t, "c13_wl", ev.N(8000, 80000), func(t *rapid.T) c13WL {
 		return c13WL{
 			Kind:   rapid.IntRange(0, 3).Draw(t, "kind"),
 			Length: rapid.IntRange(-2, 6).Draw(t, "length"),
